@@ -1235,6 +1235,8 @@ pub struct BatchOut {
     pub extra_tables_alive: u64,
     pub entropy_values: u64,
     pub violating_runs: u64,
+    /// the batch stopped early because three of its runs hung or crashed
+    pub aborted_after_abnormal_runs: bool,
     pub violations: Vec<serde_json::Value>,
     /// runs per violation class (a run counts once per class)
     pub violation_classes: BTreeMap<String, u64>,
@@ -1251,9 +1253,69 @@ pub struct BatchOut {
     pub sample: Vec<serde_json::Value>,
 }
 
+/// Bound on one isolated run; its normal cost is 5 ms to 1 s (huge maps).
+const RUN_TIMEOUT_S: u64 = 45;
+
+struct ChildResult {
+    stdout: String,
+    stderr: String,
+    code: Option<i32>,
+    timed_out: bool,
+}
+
+/// `sim c15-run --seed S` in a fresh process, with a bound: a hung child is killed.
+fn run_isolated(exe: &std::path::Path, seed: u64) -> ChildResult {
+    use std::io::Read;
+    use std::process::{Command, Stdio};
+    let mut child = Command::new(exe)
+        .args(["c15-run", "--seed", &seed.to_string()])
+        .stdin(Stdio::null())
+        .stdout(Stdio::piped())
+        .stderr(Stdio::piped())
+        .spawn()
+        .expect("harness: spawn run process");
+    let mut so = child.stdout.take().expect("harness: child stdout");
+    let mut se = child.stderr.take().expect("harness: child stderr");
+    let t_out = std::thread::spawn(move || {
+        let mut s = String::new();
+        let _ = so.read_to_string(&mut s);
+        s
+    });
+    let t_err = std::thread::spawn(move || {
+        let mut s = String::new();
+        let _ = se.read_to_string(&mut s);
+        s
+    });
+    let start = std::time::Instant::now();
+    let mut timed_out = false;
+    let mut naps = 0u32;
+    let status = loop {
+        match child.try_wait() {
+            Ok(Some(st)) => break Some(st),
+            Ok(None) => {
+                if start.elapsed().as_secs() >= RUN_TIMEOUT_S {
+                    timed_out = true;
+                    let _ = child.kill();
+                    break child.wait().ok();
+                }
+                naps += 1;
+                std::thread::sleep(std::time::Duration::from_micros(if naps < 40 { 250 } else { 2000 }));
+            }
+            Err(_) => break None,
+        }
+    };
+    ChildResult {
+        stdout: t_out.join().unwrap_or_default(),
+        stderr: t_err.join().unwrap_or_default(),
+        code: status.and_then(|s| s.code()),
+        timed_out,
+    }
+}
+
 pub fn batch(verif_seed: u64, from: u64, to: u64, hashes_path: Option<&str>, isolate: bool) -> BatchOut {
     let mut out = BatchOut { verif_seed, from, to, ..Default::default() };
     let exe = std::env::current_exe().expect("harness: current_exe");
+    let mut abnormal = 0u32;
     let mut digest = Digest::default();
     let mut digest_sum: u64 = 0;
     let mut nontrivial: BTreeSet<u64> = BTreeSet::new();
@@ -1266,31 +1328,38 @@ pub fn batch(verif_seed: u64, from: u64, to: u64, hashes_path: Option<&str>, iso
         // can travel from one run to the next, so a run is a pure function of its seed and its
         // replay (the expanded configuration, executed in a fresh process) is exact.
         let r = if isolate {
-            let child = std::process::Command::new(&exe)
-                .args(["c15-run", "--seed", &seed.to_string()])
-                .output()
-                .expect("harness: spawn run process");
-            let text = String::from_utf8_lossy(&child.stdout);
-            match text.lines().last().and_then(|l| serde_json::from_str::<RunResult>(l).ok()) {
-                Some(r) => r,
-                None => {
-                    let code = child.status.code();
-                    if code == Some(2) {
-                        eprintln!("HARNESS-ERROR c15 run process: {}", String::from_utf8_lossy(&child.stderr));
+            let child = run_isolated(&exe, seed);
+            match child.stdout.lines().last().and_then(|l| serde_json::from_str::<RunResult>(l).ok()) {
+                Some(r) if !child.timed_out => r,
+                _ => {
+                    if child.code == Some(2) && !child.timed_out {
+                        eprintln!("HARNESS-ERROR c15 run process: {}", child.stderr);
                         std::process::exit(2);
                     }
-                    // the simulated process died (signal, abort): reported as a violation of this run
+                    // the simulated process hung (no result within a bound far above its normal
+                    // cost) or died (signal, abort): reported as a violation of this run
+                    let class = if child.timed_out { "hang" } else { "crash" };
                     out.runs += 1;
                     out.violating_runs += 1;
-                    *out.violation_classes.entry("crash".to_string()).or_insert(0) += 1;
+                    *out.violation_classes.entry(class.to_string()).or_insert(0) += 1;
                     if out.violations.len() < 3 {
                         out.violations.push(serde_json::json!({
                             "index": i, "run_seed": seed, "config": cfg,
-                            "violations": [{"class": "crash", "build": -1, "query": "-", "expected": "every call returns",
-                                "got": format!("process ended with status {:?}: {}", child.status,
-                                    String::from_utf8_lossy(&child.stderr).chars().take(200).collect::<String>()),
+                            "violations": [{"class": class, "build": -1, "query": "-", "expected": "every call returns",
+                                "got": if child.timed_out {
+                                    format!("no result within {RUN_TIMEOUT_S}s (normal cost: milliseconds)")
+                                } else {
+                                    format!("process ended with status {:?}: {}", child.code,
+                                        child.stderr.chars().take(200).collect::<String>())
+                                },
                                 "observed_order": null}],
                         }));
+                    }
+                    abnormal += 1;
+                    if abnormal >= 3 {
+                        // nothing to gain from waiting for hundreds more to time out
+                        out.aborted_after_abnormal_runs = true;
+                        break;
                     }
                     continue;
                 }
